@@ -418,7 +418,7 @@ def py_oracle_available():
 
 Q4 = 'compiler-panic-dead-code-after-branch-statement'
 Q5 = 'script-completion-value-not-reset'
-Q6 = 'pending-return-value-clobbered-by-abandoned-return-in-finally'
+Q6 = 'generator-returning-slot-clobbered-by-abandoned-return'
 Q7 = 'generator-return-then-native-throw-caught-inside-generator'
 
 
@@ -535,7 +535,7 @@ class Checker:
                 # has a break/continue: goja's completion-value bookkeeping (lastProducingIdx, clearResult)
                 # is static and does not follow abrupt exits nested inside statements (see known finding)
                 sig = Q5
-            elif c.mode in 'FG' and return_value_only(g, m) and ret_in_finally(c.prog):
+            elif c.mode == 'G' and return_value_only(g, m) and ret_in_finally(c.prog):
                 # Q6: same log, both return, only the returned VALUE differs, and some finally block contains a return
                 sig = Q6
             out.append(sig)
@@ -584,14 +584,7 @@ class Checker:
                         self.bad['S'].append((c, s1))
                 self.n_v += 1
                 if v != 'ok':
-                    import re as _re
-                    mm = _re.match(r'DIFF ref\[(.*)\] vm\[(.*)\]$', v)
-                    if mm and return_value_only(mm.group(2), mm.group(1)) and ret_in_finally(c.prog):
-                        # the mini-VM mirrors the code, including known finding Q6 (outside compileS_correct's hypotheses)
-                        self.known[Q6] = self.known.get(Q6, 0) + 1
-                        self.known_example.setdefault(Q6, (c, 'mini-VM: ' + mm.group(2), mm.group(1)))
-                    else:
-                        self.bad['V'].append((c, v))
+                    self.bad['V'].append((c, v))
                 if c.fatal == 'o' or not has(c.prog, 'fatal'):
                     self.n_w += 1
                     if w != g:
@@ -899,7 +892,7 @@ def main(ctx):
     ok, errs = ctx.lake_build(['GojaModel.C08.Props', 'GojaModel.C08.CompileProps', 'GojaModel.C08.CompileSProps', 'model_c08'])
     ctx.audit('GojaModel.C08.Props', expect_min=8)
     ctx.audit('GojaModel.C08.CompileProps', expect_min=6)
-    ctx.audit('GojaModel.C08.CompileSProps', expect_min=3)
+    ctx.audit('GojaModel.C08.CompileSProps', expect_min=6)
     if ctx.tier == 'thorough':
         ctx.leanchecker('GojaModel.C08.Props')
         ctx.leanchecker('GojaModel.C08.CompileProps')
